@@ -78,6 +78,8 @@ Inductive leg :=
 | LPublishEvent (a b : option ringspec) (topic : string) (args : list N) (kwargs : kw N) (f : fault)
                 (detail_topic : bool) (handlers : list N)       (* EVENT names the topic?; handlers on the subscription *)
 | LCallInvocation (a b : option ringspec) (proc : string) (args : list N) (kwargs : kw N) (f : fault)
+                  (reg_prefix : option string) (reg_name : string)   (* how the callee registered: register(fn, name, prefix=...) *)
+                  (detail : bool)                                     (* INVOCATION carries the procedure detail *)
 | LYieldResult (b a : option ringspec) (proc : string) (inv_encrypted progress : bool) (args : list N) (kwargs : option (kw N)) (f : fault)
 | LError (b a : option ringspec) (error : string) (args : option (list N)) (kwargs : option (kw N)) (f : fault)
          (caller_defs : list defop) (kinds : list (cls * ckind)).   (* the caller's define() calls and class kinds *)
@@ -107,13 +109,13 @@ Definition run_leg (l : leg) : bool * xout :=
            XHandlers (dispatch_event N env toyC toy_open toy_loads (codec_of b) (if detail then Some u else None)
                                      (apply_fault f m) (map (fun i => mkHandler i true u) hs)))
       end
-  | LCallInvocation a b proc args kwargs f =>
+  | LCallInvocation a b proc args kwargs f reg_prefix reg_name detail =>
       match originate N env toyC N toy_seal toy_dumps (codec_of a) proc args kwargs 0%N with
       | SendRaises => (false, XNotSent)
       | Sent m =>
           (is_encrypted m,
-           match on_invocation N env toyC N toy_seal toy_open toy_dumps toy_loads (fun _ => NOTE) (codec_of b)
-                               (env_uri f proc) (apply_fault f m) 0%N with
+           match on_invocation_registered N env toyC N toy_seal toy_open toy_dumps toy_loads (fun _ => NOTE) (codec_of b)
+                   reg_prefix reg_name (if detail then Some (env_uri f proc) else None) (apply_fault f m) 0%N with
            | EndpointInvoked x k _ => XInvoked x k
            | ErrorReply u _ => XFailed u
            end)
